@@ -355,4 +355,59 @@ theorem lrevRem_spec (l : PList) (c : List Nat) (hi : InvC l c) (count : Int) (v
     rw [abs_eq hi]
     omega
 
+/-! ### LRem -/
+
+/-- the pointer-level LRem refines `DsList.lrem`.  `hmin`: Go treats `count == math.MinInt64` as "remove
+    all" (because `-count` overflows), `DsList.lrem` removes up to 2^63 occurrences from the tail; the two
+    agree for a list of at most 2^63 elements. -/
+theorem lrem_refines (l : PList) (c : List Nat) (hi : InvC l c) (count : Int) (value : Bytes)
+    (hmin : count = minInt64 → (c.length : Int) ≤ 9223372036854775808) :
+    ∃ l' c', lrem l count value = .ok (l', (DsList.lrem (absL l) count value).2) ∧ InvC l' c' ∧
+      absL l' = (DsList.lrem (absL l) count value).1 ∧ l'.heap.size = l.heap.size := by
+  by_cases hpos : count > 0
+  · obtain ⟨l', c', e, hi', ha, hs⟩ := lremFwd_spec l c hi count value hpos
+    refine ⟨l', c', ?_, hi', ?_, hs⟩
+    · unfold lrem
+      rw [if_pos hpos, e, dslrem_pos _ _ _ hpos]
+      rfl
+    · rw [ha, dslrem_pos _ _ _ hpos]
+      rfl
+  · by_cases hneg : count < 0
+    · by_cases hm : count = minInt64
+      · obtain ⟨l', c', e, hi', ha, hs⟩ := lremAll_spec l c hi value
+        have hal : (abs l).length = c.length := by rw [abs_eq hi, List.length_map]
+        have hk : (abs l).reverse.length ≤ (-count).toNat := by
+          have := hmin hm
+          rw [List.length_reverse, hal, hm]
+          unfold minInt64
+          omega
+        have hrf := removeFirst_all (abs l).reverse value (-count).toNat hk
+        rw [List.filter_reverse, List.length_reverse, List.length_reverse] at hrf
+        refine ⟨l', c', ?_, hi', ?_, hs⟩
+        · unfold lrem
+          rw [if_neg hpos, if_pos hneg, if_pos hm, e, dslrem_neg _ _ _ hneg]
+          show _ = Res.ok (l', (((DsList.removeFirst (abs l).reverse value (-count).toNat).2 : Nat) : Int))
+          rw [hrf]
+        · rw [ha, dslrem_neg _ _ _ hneg]
+          show _ = ({ items := (DsList.removeFirst (abs l).reverse value (-count).toNat).1.reverse,
+                      length := l.length -
+                        ((DsList.removeFirst (abs l).reverse value (-count).toNat).2 : Nat) } : LList)
+          rw [hrf, List.reverse_reverse]
+      · obtain ⟨l', c', e, hi', ha, hs⟩ := lrevRem_spec l c hi (-count) value (by omega)
+        refine ⟨l', c', ?_, hi', ?_, hs⟩
+        · unfold lrem
+          rw [if_neg hpos, if_pos hneg, if_neg hm, e, dslrem_neg _ _ _ hneg]
+          rfl
+        · rw [ha, dslrem_neg _ _ _ hneg]
+          rfl
+    · have h0 : count = 0 := by omega
+      subst h0
+      obtain ⟨l', c', e, hi', ha, hs⟩ := lremAll_spec l c hi value
+      refine ⟨l', c', ?_, hi', ?_, hs⟩
+      · unfold lrem
+        rw [if_neg hpos, if_neg hneg, e, dslrem_zero]
+        rfl
+      · rw [ha, dslrem_zero]
+        rfl
+
 end NodisVerif.LinkedList
